@@ -737,6 +737,65 @@ def run_mi_symmetry(ctx: Ctx) -> None:
                 _guard(ctx, "T16.mi-symmetry", f"{name}:pair{k}:bins={bins}", f, f"loss={name} image pair {k} num_bins={bins}", th)
 
 
+def run_rand_sample(ctx: Ctx) -> None:
+    """Random sampling inside a mask (the sampled variants of mi_loss / nmi_loss): which positions may be drawn is not random."""
+    prog = ctx.prog
+    fR = prog.func("deepali.core.image", "rand_sample")
+    fM = prog.func("deepali.core.random", "multinomial")
+    ctx.fn(fR)
+    ctx.rule("T16.rand-sample", "rand_sample(data, k, mask) for a batch of 2 images, with and without replacement: the sampling weights handed to "
+                                "multinomial() (an uninterpreted callee: the draw itself is random) are, for image n, the mask of image n (a shared "
+                                "(1, 1, ...) mask for both; a per-image (N, 1, ...) mask row by row), so no position outside an image's own mask "
+                                "can be drawn; the returned values are the values of that image (every channel, every data tensor of a sequence) "
+                                "at the drawn positions")
+    masks = {"shared": [[[[1, 0, 1], [0, 1, 1]]]], "per-image": [[[[1, 0, 1], [0, 0, 1]]], [[[0, 1, 0], [1, 1, 0]]]]}
+    for what, m_ in masks.items():
+        for repl in (False, True):
+            def th(m_=m_, what=what, repl=repl):
+                reset_relations()
+                fresh_facts()
+                it = make_interp(ctx)
+                rec = []
+
+                def fake_multinomial(interp, args, kwargs):
+                    b = dict(zip(fM.pos_params, args))
+                    b.update(kwargs)
+                    w, k = b["input"], int(b["num_samples"])
+                    rec.append(w.clone())
+                    rows = []
+                    for n in range(w.shape[0]):
+                        allowed = [i for i, v in enumerate(w[n].flat()) if not to_rat(v).is_zero()]
+                        if not allowed:
+                            raise AnalysisError("T16.rand-sample: empty mask row (adaptor)")
+                        rows.append([allowed[j % len(allowed)] for j in range(k)])
+                    return STensor.from_nested(rows).type(symt.INT)
+                it.overrides[fM.key] = fake_multinomial
+                a = STensor.symbols("a", [2, 2, 2, 3])
+                b_ = STensor.symbols("b", [2, 2, 2, 3])
+                mask = STensor.from_nested(m_).type(symt.FLOAT)
+                out = it.call(fR, [a, b_], 2, mask=mask, replacement=repl)
+                if len(rec) != 1:
+                    return False, f"multinomial reached {len(rec)} times"
+                w = rec[0]
+                if list(w.shape) != [2, 6]:
+                    return False, f"sampling weights of shape {tuple(w.shape)} for 2 images of 6 points"
+                for n in range(2):
+                    mrow = mask[n if mask.shape[0] > 1 else 0].reshape([-1])
+                    for i in range(6):
+                        if to_rat(w[n, i].flat()[0]).is_zero() != to_rat(mrow[i].flat()[0]).is_zero():
+                            return False, (f"{what} mask: image {n} may draw position {i} with weight {to_rat(w[n, i].flat()[0])} although its mask there is "
+                                           f"{to_rat(mrow[i].flat()[0])} (weights row {n} is not the mask of image {n})")
+                    allowed = [i for i in range(6) if not to_rat(mrow[i].flat()[0]).is_zero()]
+                    for x, o in ((a, out[0]), (b_, out[1])):
+                        for c in range(x.shape[1]):
+                            for j in range(2):
+                                want = x[n, c].reshape([-1])[allowed[j % len(allowed)]]
+                                if not teq(o[n, c, j], want):
+                                    return False, f"{what} mask: sample {j} of image {n} channel {c} is not the value of that image at the drawn position"
+                return True, ""
+            _guard(ctx, "T16.rand-sample", f"{what}:replacement={repl}", fR, f"rand_sample mask={what} replacement={repl}", th)
+
+
 def run_wlcc(ctx: Ctx) -> None:
     """Weighted local correlation (wlcc_loss / WLCC): symmetry, repeatability with reused mask tensors, reductions, reduction to lcc."""
     prog = ctx.prog
